@@ -112,12 +112,25 @@ def rule_messages(rep: Report, rid="C14.msg") -> None:
            expected=[fmt(x, I) for x in want_body], found=[fmt(x, I) for x in got[-len(want_body):]])
     loc = st.ext.get((selft, "location"))
     tl = ("attr", tok, "location")
-    colv = ("cond", ("cmp", "In", const("column"), tl), ("item", tl, const("column")), NONE)
+    has = ("cmp", "In", const("column"), tl)
+    col = ("item", tl, const("column"))
     ok = False
-    if loc is not None and loc[0] == "cond" and loc[1] == colv and loc[2] == tl:
-        d = nf.resolve_ref_dict(I, loc[3], tree)
-        ok = d is not None and set(d) == {"line", "column"} and d["line"][0] == ("item", tl, const("line")) \
-            and lin_eq(d["column"][0], ("binop", "Add", ("attr", line, "indent"), const(1)))
+    dec = nf.decisions(loc) if loc is not None else None
+    if dec:
+        ok = True
+        for a, leaf in dec:
+            if set(a) - {has, col}:
+                ok = False
+                break
+            if a.get(has, False) and a.get(col, False):
+                ok = ok and leaf == tl
+            elif has in a and (a[has] and col not in a):
+                ok = False
+            else:
+                d = nf.resolve_ref_dict(I, leaf, tree)
+                ok = ok and d is not None and set(d) == {"line", "column"} and d["line"][0] == ("item", tl, const("line")) \
+                    and lin_eq(d["column"][0], ("binop", "Add", ("attr", line, "indent"), const(1)))
+        ok = ok and has in dec[0][0] and col in dec[0][0]
     rep.ob("C04.err" if rid.startswith("C04") else rid, "an unexpected-line error is located at the token's own location, falling back to (line, indent + 1) when no column was set",
            ok, **kw, expected="token.location if it has a column else {'line': token line, 'column': token.line.indent + 1}", found=fmt(loc, I) if loc else None)
     # UnexpectedEOFException
